@@ -1,3 +1,85 @@
-From ST Require Import Base.Outcome Utf.Spec Utf.Tokens Utf.Model.
-Theorem placeholder : True. Proof. exact I. Qed.
-Print Assumptions placeholder.
+(* Properties/C01.v — C01: well-formed text transcodes losslessly and to the standard
+   encoding.  Statements only.  `enc8/enc16/enc32` are the Unicode standard's encodings
+   (Utf/Spec.v, by range with / and mod); `scalars l`: every element is a Unicode scalar
+   value; `fits s`: fewer than ST_HUGE_BUFFER_SIZE = 2^28 units.  Every statement holds
+   for EVERY validation mode m (so the mode is irrelevant on well-formed text) and, for
+   Latin-1 targets, for both settings of the out-of-range flag.                          *)
+From Coq Require Import NArith List Bool.
+From ST Require Import Base.Outcome Base.Units Utf.Spec Utf.Tokens Utf.Model Utf.ProofsC01.
+Import ListNotations.
+Local Open Scope N_scope.
+
+(* ---- the six UTF direction pairs ---- *)
+Theorem utf_pairs_standard : forall m l, scalars l = true ->
+  (fits (enc8 l) -> utf8_to_utf16 m (Some (enc8 l)) = Ok (enc16 l)) /\
+  (fits (enc8 l) -> utf8_to_utf32 m (Some (enc8 l)) = Ok (enc32 l)) /\
+  (fits (enc16 l) -> utf16_to_utf8 m (Some (enc16 l)) = Ok (enc8 l)) /\
+  (fits (enc16 l) -> utf16_to_utf32 m (Some (enc16 l)) = Ok (enc32 l)) /\
+  (fits (enc32 l) -> utf32_to_utf8 m (Some (enc32 l)) = Ok (enc8 l)) /\
+  (fits (enc32 l) -> utf32_to_utf16 m (Some (enc32 l)) = Ok (enc16 l)).
+Proof. exact utf_pairs_std. Qed.
+Print Assumptions utf_pairs_standard.
+
+(* ---- the six Latin-1 pairs (and the wchar_t ones), as round trips: every byte string taken as
+   Latin-1, converted to any UTF form and back, is unchanged ---- *)
+Theorem latin1_round_trips : forall m sub b, all_lt 256 b = true -> fits (enc8 b) ->
+  (latin_1_to_utf8 (Some b) = Ok (enc8 b) /\ utf8_to_latin_1 m sub (Some (enc8 b)) = Ok b) /\
+  (latin_1_to_utf16 (Some b) = Ok (enc16 b) /\ utf16_to_latin_1 m sub (Some (enc16 b)) = Ok b) /\
+  (latin_1_to_utf32 (Some b) = Ok (enc32 b) /\ utf32_to_latin_1 m sub (Some (enc32 b)) = Ok b) /\
+  (latin_1_to_wchar (Some b) = Ok (enc wchar_encoding b) /\ wchar_to_latin_1 m sub (Some (enc wchar_encoding b)) = Ok b).
+Proof. exact latin1_pairs_std. Qed.
+Print Assumptions latin1_round_trips.
+
+(* ---- wchar_t aliases (width from Gen/Consts.sizeof_wchar, regenerated from the platform) ---- *)
+Theorem wchar_pairs_standard : forall m l, scalars l = true ->
+  (fits (enc8 l) -> utf8_to_wchar m (Some (enc8 l)) = Ok (enc wchar_encoding l)) /\
+  (fits (enc16 l) -> utf16_to_wchar m (Some (enc16 l)) = Ok (enc wchar_encoding l)) /\
+  utf32_to_wchar m (Some (enc32 l)) = Ok (enc wchar_encoding l) /\
+  (fits (enc wchar_encoding l) -> wchar_to_utf8 m (Some (enc wchar_encoding l)) = Ok (enc8 l)) /\
+  (fits (enc wchar_encoding l) -> wchar_to_utf16 m (Some (enc wchar_encoding l)) = Ok (enc16 l)) /\
+  wchar_to_utf32 m (Some (enc wchar_encoding l)) = Ok (enc32 l).
+Proof. exact wchar_pairs_std. Qed.
+Print Assumptions wchar_pairs_standard.
+
+(* ---- ST::string: constructors / set / operator= / from_* (the content of the string), the _st
+   literal operator, and the to_* members (hard-wired assume_valid) ---- *)
+Theorem string_routes_standard : forall m l, scalars l = true ->
+  (fits (enc8 l) -> string_from_utf8 m (Some (enc8 l)) = Ok (enc8 l)) /\
+  (fits (enc16 l) -> string_from_utf16 m (Some (enc16 l)) = Ok (enc8 l)) /\
+  (fits (enc32 l) -> string_from_utf32 m (Some (enc32 l)) = Ok (enc8 l)) /\
+  (fits (enc wchar_encoding l) -> string_from_wchar m (Some (enc wchar_encoding l)) = Ok (enc8 l)) /\
+  string_literal_char (Some (enc8 l)) = Ok (enc8 l) /\
+  string_to_utf8 (enc8 l) = Ok (enc8 l) /\
+  (fits (enc8 l) -> string_to_utf16 (enc8 l) = Ok (enc16 l)) /\
+  (fits (enc8 l) -> string_to_utf32 (enc8 l) = Ok (enc32 l)) /\
+  (fits (enc8 l) -> string_to_wchar (enc8 l) = Ok (enc wchar_encoding l)).
+Proof. exact string_routes_std. Qed.
+Print Assumptions string_routes_standard.
+Theorem string_latin1_round_trip : forall sub b, all_lt 256 b = true -> fits (enc8 b) ->
+  string_from_latin_1 (Some b) = Ok (enc8 b) /\ string_to_latin_1 sub (enc8 b) = Ok b.
+Proof. exact string_latin1_std. Qed.
+Print Assumptions string_latin1_round_trip.
+
+(* ---- chains: any path through the conversion graph (UTF-8 -> UTF-8 goes through an ST::string),
+   each hop under its own mode, ends in the standard encoding of the same scalars; in particular
+   a path that returns to its start returns the original code units ---- *)
+Theorem any_chain : forall l, scalars l = true -> (forall e, utf_enc e -> fits (enc e l)) ->
+  forall path e0, utf_enc e0 -> Forall (fun p => utf_enc (fst p)) path ->
+  run_chain path e0 (enc e0 l) = Ok (enc (last (map fst path) e0) l).
+Proof. exact chain. Qed.
+Print Assumptions any_chain.
+
+(* ---- the result is the same whichever validation mode is requested ---- *)
+Theorem mode_is_irrelevant : forall e1 e2 m1 m2 l, scalars l = true -> utf_enc e1 -> utf_enc e2 -> fits (enc e1 l) ->
+  convert e1 e2 m1 (enc e1 l) = convert e1 e2 m2 (enc e1 l).
+Proof. exact mode_irrelevant. Qed.
+Print Assumptions mode_is_irrelevant.
+
+(* non-vacuity: the hypotheses are satisfiable (one scalar of each encoded width and U+10FFFF) *)
+Example hypotheses_satisfiable :
+  scalars [0x41; 0xE9; 0x20AC; 0x1F600; 0x10FFFF] = true /\ fits (enc8 [0x41; 0xE9; 0x20AC; 0x1F600; 0x10FFFF]).
+Proof. exact std_nonvacuous. Qed.
+
+(* routes_covered_partial: the API inventory Gen/Api.v (DESIGN 4.3) is not generated in this
+   round, so "every overload is modelled" is tied by the harness route table only
+   (checks/utf_gen.py: routes_for / default_only_routes), not by a Coq obligation. *)
